@@ -31,7 +31,8 @@ MANIFEST = dict(
          "relatedInformers map; variant with the mutex: none) and names the concurrency shapes; those shapes run on the real "
          "controller with several workers, freely, under the Go race detector, and with one worker; TLC validates "
          "C17_NoRace and C17_Serial (same final store) on the resulting trace.  The race detector is the observation device for "
-         "memory accesses (no TLA+ tool can see them); it is dynamic: a race not exercised by a run is not reported.",
+         "memory accesses (no TLA+ tool can see them); it is dynamic: a race not exercised by a run is not reported."
+         ' Concurrent runs include server-side apply with scale-downs (memo map), and rollouts in which both per-revision hook calls of a sync fail together; every log verbosity level is on.',
     ref="DESIGN.md §8 C17",
     tech="TLA+ lockset model + TLC trace validation of cache fingerprints and of race-detector/serial-equivalence runs on real code")
 
